@@ -33,6 +33,11 @@
 //!                            twin evaluated out of the REAL script text (or the consume_buffers pairs)
 //!                                                                                     -> hydrate <k>:<ok|wrong|none>,.. fetches=<n> ## verdict
 //!                            (ok = the carrier starts with the server's value; fetches = client-side loads that ran)
+//!   client post|csr <kind> <carrier> <value> [<enc>]
+//!                            one more carrier on the client at another moment: `post` = on the hydrated page after
+//!                            hydration_complete() (its data still readable), `csr` = under the real CsrSharedContext
+//!                                                                                     -> client <m> ids=<drawn> st=<..> fetches=<n> ## verdict
+//!                            (oracle: it looks at nothing that was transferred, starts empty, runs its own loader)
 //!   poll                     poll_next once with a no-op waker                        ->
 //!        chunk <wrapped> tok=<ok|pos|none> danger=<0|1> reads=<id:s,..|-> errs=<b:e:s,..|-> [inc=<ids>] ## verdict
 //!      | chunk <wrapped> tok=.. danger=.. syntax-error ## verdict | pending | end ## verdict | skip
@@ -911,6 +916,91 @@ impl SharedContext for MockHydrate {
     }
 }
 
+/// what a client-side shared context was asked
+#[derive(Debug, Clone, PartialEq)]
+enum CEv {
+    NextId(usize),
+    Read(usize),
+}
+
+/// Forwards everything to a client-side shared context (`MockHydrate`, or the real
+/// `CsrSharedContext`) and records the ids drawn and the ids looked up.
+#[derive(Debug)]
+struct ClientSpy {
+    inner: Arc<dyn SharedContext + Send + Sync>,
+    log: Mutex<Vec<CEv>>,
+}
+impl SharedContext for ClientSpy {
+    fn is_browser(&self) -> bool {
+        self.inner.is_browser()
+    }
+    fn next_id(&self) -> SerializedDataId {
+        let id = self.inner.next_id();
+        self.log.lock().unwrap().push(CEv::NextId(id.clone().into_inner()));
+        id
+    }
+    fn write_async(&self, id: SerializedDataId, fut: PinnedFuture<String>) {
+        self.inner.write_async(id, fut)
+    }
+    fn read_data(&self, id: &SerializedDataId) -> Option<String> {
+        self.log.lock().unwrap().push(CEv::Read(id.clone().into_inner()));
+        self.inner.read_data(id)
+    }
+    fn await_data(&self, _id: &SerializedDataId) -> Option<String> {
+        None
+    }
+    fn pending_data(&self) -> Option<PinnedStream<String>> {
+        self.inner.pending_data()
+    }
+    fn during_hydration(&self) -> bool {
+        self.inner.during_hydration()
+    }
+    fn hydration_complete(&self) {
+        self.inner.hydration_complete()
+    }
+    fn get_is_hydrating(&self) -> bool {
+        self.inner.get_is_hydrating()
+    }
+    fn set_is_hydrating(&self, is_hydrating: bool) {
+        self.inner.set_is_hydrating(is_hydrating)
+    }
+    fn take_errors(&self) -> Vec<(SerializedDataId, ErrorId, Error)> {
+        self.inner.take_errors()
+    }
+    fn errors(&self, boundary_id: &SerializedDataId) -> Vec<(ErrorId, Error)> {
+        self.inner.errors(boundary_id)
+    }
+    fn seal_errors(&self, boundary_id: &SerializedDataId) {
+        self.inner.seal_errors(boundary_id)
+    }
+    fn register_error(&self, b: SerializedDataId, e: ErrorId, error: Error) {
+        self.inner.register_error(b, e, error)
+    }
+    fn defer_stream(&self, wait_for: PinnedFuture<()>) {
+        self.inner.defer_stream(wait_for)
+    }
+    fn await_deferred(&self) -> Option<PinnedFuture<()>> {
+        self.inner.await_deferred()
+    }
+    fn set_incomplete_chunk(&self, id: SerializedDataId) {
+        self.inner.set_incomplete_chunk(id)
+    }
+    fn get_incomplete_chunk(&self, id: &SerializedDataId) -> bool {
+        self.inner.get_incomplete_chunk(id)
+    }
+}
+
+/// the hydrated page, kept for carriers created later on it
+struct ClientSide {
+    spy: Arc<ClientSpy>,
+    ctx: Arc<dyn SharedContext + Send + Sync>,
+    owner: Owner,
+    keep: Vec<Box<dyn Any>>,
+    fetches: Arc<AtomicUsize>,
+    /// ids under which the page's data is readable
+    present: Vec<usize>,
+}
+
 // ------------------------------------------------------------------ real resources on both sides
 
 type Completer = Box<dyn FnOnce()>;
@@ -1152,6 +1242,7 @@ struct Case {
     consume: Option<ConsumeFut>,
     consume_started: bool,
     consumed_pairs: Option<Vec<(usize, String)>>,
+    client: Option<ClientSide>,
     completers: Vec<Option<Completer>>,
     keep: Vec<Box<dyn Any>>,
     created: Vec<Created>,
@@ -1181,6 +1272,7 @@ impl Case {
             consume: None,
             consume_started: false,
             consumed_pairs: None,
+            client: None,
             completers: vec![],
             keep: vec![],
             created: vec![],
@@ -1198,6 +1290,7 @@ impl Case {
     fn clear(&mut self) {
         self.stream = None;
         self.consume = None;
+        self.client = None;
         self.completers.clear();
         self.keep.clear();
         sched::reset();
@@ -1578,7 +1671,8 @@ fn op(c: &mut Case, tags: &HashMap<String, String>, line: &str) -> String {
             };
             let present: Vec<usize> = map.keys().copied().collect();
             let real = if c.islands { HydrateSharedContext::new_islands() } else { HydrateSharedContext::new() };
-            let ctx: Arc<dyn SharedContext + Send + Sync> = Arc::new(MockHydrate { real, map });
+            let spy = Arc::new(ClientSpy { inner: Arc::new(MockHydrate { real, map }), log: Mutex::new(vec![]) });
+            let ctx: Arc<dyn SharedContext + Send + Sync> = Arc::clone(&spy) as Arc<dyn SharedContext + Send + Sync>;
             let owner = Owner::new_root(Some(Arc::clone(&ctx)));
             let fetches = Arc::new(AtomicUsize::new(0));
             let mut keep: Vec<Box<dyn Any>> = vec![];
@@ -1603,14 +1697,64 @@ fn op(c: &mut Case, tags: &HashMap<String, String>, line: &str) -> String {
             // let any (wrongly) started client-side load run
             sched::run_until_idle(10_000);
             let n = fetches.load(Ordering::SeqCst);
-            drop(keep);
-            drop(owner);
-            // (the client's pending loads stay parked in the executor table until the case ends)
+            // the page stays (its pending loads stay parked in the executor table until the case ends)
+            c.client = Some(ClientSide { spy, ctx, owner, keep, fetches, present });
             format!(
                 "hydrate {} fetches={n} ## {}",
                 show_list(shown),
                 if bad { "fail client-value" } else { "ok" }
             )
+        }
+        ["client", moment @ ("post" | "csr"), kind, variant, rest @ ..] => {
+            // a carrier created on the client at another moment: after `hydration_complete()` on the
+            // hydrated page (whose data is still readable), or on a page that was never server-rendered
+            let (Some(kind), Some(variant)) = (Kind::parse(kind), Variant::parse(variant)) else {
+                return "bad-op".into();
+            };
+            let raw = match (rest, kind.has_aux()) {
+                ([h], false) => unhex(h),
+                ([h, x], true) if unhex(x).is_some() => unhex(h),
+                _ => return "bad-op".into(),
+            };
+            let Some(raw) = raw else { return "bad-op".into() };
+            if with_kind!(kind, enc_of(&raw)).is_none() {
+                return "bad-op".into();
+            }
+            let mut csr_side;
+            let side: &mut ClientSide = if *moment == "post" {
+                let Some(side) = c.client.as_mut() else { return "skip".into() };
+                side.ctx.hydration_complete();
+                side
+            } else {
+                let spy = Arc::new(ClientSpy {
+                    inner: Arc::new(hydration_context::CsrSharedContext),
+                    log: Mutex::new(vec![]),
+                });
+                let ctx: Arc<dyn SharedContext + Send + Sync> = Arc::clone(&spy) as Arc<dyn SharedContext + Send + Sync>;
+                let owner = Owner::new_root(Some(Arc::clone(&ctx)));
+                csr_side = ClientSide { spy, ctx, owner, keep: vec![], fetches: Arc::new(AtomicUsize::new(0)), present: vec![] };
+                &mut csr_side
+            };
+            let log_from = side.spy.log.lock().unwrap().len();
+            let before = side.fetches.load(Ordering::SeqCst);
+            let st = with_kind!(kind, client_make(&side.owner, &side.ctx, variant, &raw, &side.fetches, &mut side.keep));
+            sched::run_until_idle(10_000);
+            let loads = side.fetches.load(Ordering::SeqCst) - before;
+            let evs: Vec<CEv> = side.spy.log.lock().unwrap()[log_from..].to_vec();
+            let ids: Vec<String> =
+                evs.iter().filter_map(|e| if let CEv::NextId(i) = e { Some(i.to_string()) } else { None }).collect();
+            // oracle: nothing that was transferred for the page is looked at, the carrier starts empty
+            // and (unless it is the bare next_id/read_data pair) its own loader / initialiser runs
+            let read_transferred =
+                evs.iter().any(|e| matches!(e, CEv::Read(i) if side.present.contains(i)));
+            let verdict = if st != Status::None || read_transferred {
+                "fail late-carrier-reads-transferred-data"
+            } else if variant != Variant::Direct && loads != 1 {
+                "fail late-carrier-does-not-load"
+            } else {
+                "ok"
+            };
+            format!("client {moment} ids={} st={} fetches={loads} ## {verdict}", show_list(ids), st.show())
         }
         ["poll"] => {
             let Some(st) = c.stream.as_mut() else { return "skip".into() };
@@ -1848,6 +1992,8 @@ fn compute_tags(ops_path: &str) -> HashMap<String, String> {
                     ["start"] => t.push("stream"),
                     ["consume"] => t.push("consume-buffers"),
                     ["hydrate"] => t.push("hydrate"),
+                    ["client", "post", ..] => t.push("client-after-hydration"),
+                    ["client", "csr", ..] => t.push("client-csr"),
                     _ => {}
                 }
             }
@@ -2077,6 +2223,34 @@ fn permutations(n: usize) -> Vec<Vec<usize>> {
 }
 
 /// one streaming session; `order` = completion order of the registered writes
+/// carriers created on the client at other moments: after `hydration_complete()` on the hydrated
+/// page, and on a page that was never server-rendered. Half of them repeat a (kind, value) of the
+/// page (so that data read under a stale id would decode), with any carrier.
+fn late_client_ops(setup: &[String], r: &mut Rng) -> Vec<String> {
+    let writes: Vec<Vec<&str>> = setup
+        .iter()
+        .filter(|l| l.starts_with("write "))
+        .map(|l| l.split_whitespace().collect::<Vec<_>>())
+        .collect();
+    let mut l = vec![];
+    for _ in 0..r.below(4) {
+        let moment = if r.chance(3, 4) { "post" } else { "csr" };
+        let carrier = *r.pick(&["d", "ar", "r", "ao", "ao", "o", "o", "sv"]);
+        if !writes.is_empty() && r.chance(1, 2) {
+            let w = r.pick(&writes);
+            let mut parts = vec!["client", moment, w[1], carrier];
+            parts.extend(&w[3..]);
+            l.push(parts.join(" "));
+        } else {
+            let w = gen_write(r, false);
+            let mut parts: Vec<&str> = w.split_whitespace().collect();
+            parts[1] = carrier;
+            l.push(format!("client {moment} {}", parts.join(" ")));
+        }
+    }
+    l
+}
+
 /// the same session through the other server exit: `consume_buffers()`
 fn consume_ops(setup: &[String], order: &[usize], r: &mut Rng) -> Vec<String> {
     let mut l: Vec<String> = setup.iter().filter(|x| !x.starts_with("err") && !x.starts_with("seal")).cloned().collect();
@@ -2100,6 +2274,7 @@ fn consume_ops(setup: &[String], order: &[usize], r: &mut Rng) -> Vec<String> {
     l.push("cpoll".into());
     l.push("cpoll".into());
     l.push("hydrate".into());
+    l.extend(late_client_ops(setup, r));
     l
 }
 
@@ -2140,6 +2315,7 @@ fn session_ops(setup: &[String], n_writes: usize, order: &[usize], r: &mut Rng, 
         l.push("poll".into());
     }
     l.push("hydrate".into());
+    l.extend(late_client_ops(setup, r));
     l
 }
 
